@@ -515,7 +515,7 @@ def main(argv=None):
         technique='symbolic execution of the real CMDRequest/CMDResponse clock() under the real simulator (BMC) with symbolic hex-digit characters, values and consumer ready; z3 QF_BV',
         assumptions=['digits are upper-case hexadecimal characters (well-formed commands)', 'index wires 8 bit, value wire 16 bit: numbers are compared modulo the wire width',
                      'a character is consumed at an edge with ready and valid high; producer pacing from enumerated delay patterns',
-                     'K<n>; with symbolic n only for n <= 4 (9 thorough); response liveness under "ready high during the last cycles of the horizon"'],
+                     'K<n>;: bounded runs with symbolic n <= 4 (9 thorough); every n by kdecode_task (burst counter == transmitted number when the burst starts) + kburst_task (induction on the counter); response liveness under "ready high during the last cycles of the horizon"'],
         bounds={'digits': '1..4 per number', 'commands': '1..2 per run (3 thorough)', 'response': 'size 1..4 (and 9, 16 digits with an 8-bit size wire; thorough also 8, 12, 17, 33), value 16 bits (8/16/32 thorough), ready symbolic for every cycle of the horizon; also with the value wire replaced by a second symbolic value in the cycle after the start pulse (the response must still carry the value selected at the start)'},
         trusted_base=['z3', 'symx operator semantics and fork-and-merge shell', 'monitors in checks/c20.py'], task_limit=1500)
 
